@@ -25,7 +25,29 @@ AC = "msmart.device.AC.device.AirConditioner"
 
 C12_FILTER = r"\.(post\.(wf|len|id|inv|query|toggle|body|length|checksum|payload|page|indoor|beep|props|consecutive|range|table_is_polynomial|table_len)|returns|assign\.|call\.|loop\d|frame\.|noraise|raises)"
 
+LANM = "msmart.lan."
+V3 = LANM + "_LanProtocolV3"
+LANC = LANM + "LAN"
+DEVB = "msmart.base_device.Device"
+
 PROPS = {
+    "C02": {"targets": [LANM + "_Packet._timestamp", LANM + "_Packet.encode", LANM + "_Packet.decode", LANM + "_Packet.decode#interop"],
+            "level": "proof"},
+    "C03": {"targets": [LANM + "_Packet.decode", LANM + "_Packet.decode#truncated", LANM + "_Packet.decode#interop"],
+            "level": "proof"},
+    "C04": {"targets": [V3 + ".data_received", V3 + ".read"], "level": "proof"},
+    "C05": {"targets": [V3 + "._encode_encrypted_request", V3 + "._decode_encrypted_response", V3 + "._process_packet",
+                        V3 + "._process_packet#interop", V3 + ".write"], "level": "proof"},
+    "C06": {"targets": [V3 + "._encode_handshake_request", V3 + "._get_local_key", V3 + "._get_local_key#genuine", V3 + ".authenticate",
+                        LANM + "_LanProtocol._flush", V3 + ".write", LANC + ".authenticate", DEVB + ".authenticate"], "level": "proof"},
+    "C07": {"targets": [V3 + ".write", LANM + "_LanProtocol.write", V3 + ".authenticate", V3 + ".authenticated", LANM + "_LanProtocol.alive",
+                        LANC + "._alive", LANC + "._connect", LANC + "._disconnect", LANC + ".authenticate", LANC + ".send"], "level": "proof"},
+    "C08": {"targets": [LANC + ".send", LANC + ".authenticate", LANC + "._connect", LANC + "._disconnect", LANC + "._read",
+                        LANC + "._read_available", DEVB + "._send_command#transport", "msmart.device.AC.device.AirConditioner.refresh#no_valid_response"],
+            "level": "proof"},
+    "C09": {"targets": [LANM + "_Packet.decode", V3 + "._process_packet", V3 + "._decode_encrypted_response", V3 + "._get_local_key",
+                        V3 + ".read", LANM + "_LanProtocol.read", LANC + "._read", LANC + "._read_available", LANC + ".send",
+                        LANC + ".authenticate", DEVB + "._send_command#transport", DEVB + ".authenticate"], "level": "proof"},
     "C10": {"targets": [CMD + "SetStateCommand.__init__", CMD + "SetStateCommand.tobytes", CMD + "Command.tobytes",
                         CMD + "Command._next_message_id", "msmart.frame.Frame.tobytes", "msmart.frame.Frame.checksum",
                         "msmart.crc8.calculate", "crc8.table", "crc8.step_range",
